@@ -9,6 +9,9 @@ CLAIMED = {
  "C16": ("Coq proof (decimal-string injectivity, modular arithmetic) over a hand model of CreateUE + differential correspondence run against the Go code",
          "Theorems in coq/Properties/C16.v, for all IMSI strings and all indices: SUPIs pairwise distinct, RAN-UE-NGAP-IDs pairwise distinct within any window of 10 000 indices, SUPI keeps the PLMN digits and length while MSIN+index fits, advertised capability = algorithms in use. The model (Model/CreateUE.v) is executed by vm_compute on the outputs of the real CreateUE/GetUESecurityCapability for PRNG-drawn IMSIs (leading zeros, 2/3-digit MNC, MSIN near exhaustion, carries, populations of 10 000) on every run.",
          "Coq kernel + vm_compute; hand-written model tied by differential execution (not by translation); Atoi/%0*d modelled for <= 18 digit strings; Go harness.", "DESIGN.md §7 C16"),
+ "C11": ("Coq proof (symbolic in the digits: nibble packing, BCD MSIN by pair induction) over a hand model of EncodeSuci/PLMN slice/PlmnIDToNas + differential correspondence run",
+         "Theorems in coq/Properties/C11.v for every MCC (3 digits), MNC (2 or 3 digits) and MSIN (any length, odd or even): an independent TS 24.501 9.11.3.4 decoder (Spec/Suci.v) applied to EncodeSuci's output returns the same MCC/MNC/MSIN (routing indicator 0, null scheme); the PLMN octets taken for NG Setup equal the standard 3-octet coding and the library's PlmnIDToNas and decode back. Each run executes the model and the spec decoder on the real EncodeSuci output, on the REGISTRATION/DEREGISTRATION REQUEST built by the emulator's constructors and on the PLMN octets found in encoded NGSetupRequest / InitialUEMessage.",
+         "Coq kernel + vm_compute; hand model tied by differential execution; SUCI/PLMN layout transcribed from memory of TS 24.501; NGAP PLMN assumed to use the same nibble order (as the property states).", "DESIGN.md §7 C11"),
 }
 PENDING_REASON = "check not built yet in this round (work in progress; see DESIGN.md §7 for the planned proof)"
 
